@@ -275,6 +275,18 @@ func History(args []string) {
 	if len(args) > 2 {
 		fixture = args[2]
 	}
+	if strings.HasPrefix(fixture, "synth:") {
+		// an input synthesised by the harness writer: synth:<sectorSize>:<shape>
+		var ss int
+		var shape string
+		parts := strings.Split(fixture, ":")
+		fmt.Sscan(parts[1], &ss)
+		shape = parts[2]
+		fixture = filepath.Join(dir, "synth.msi")
+		if err := WriteCFB(fixture, ss, SynthShape(shape), map[string]int{"gaps": 1}[shape]); err != nil {
+			panic(err)
+		}
+	}
 	out, err := os.Create(args[1])
 	if err != nil {
 		panic(err)
@@ -305,5 +317,23 @@ func History(args []string) {
 	}
 	r.Extra["behaviours_read"] = n
 	r.Extra["states_logged"] = rn.nstates
+	bw.Flush()
+	out.Close()
 	r.Emit()
+}
+
+// SynthShape: stream sets for synthesised inputs
+func SynthShape(shape string) []WStream {
+	switch shape {
+	case "nomini": // no stream below the cutoff: the file has no mini stream and no mini FAT
+		return []WStream{{"Big1", content(4096, 1)}, {"big2", content(9000, 2)}}
+	case "fulldir": // root + 3 streams = one full 512-byte directory sector
+		return []WStream{{"Alpha", content(63, 1)}, {"beta2", content(5000, 2)}, {"Gamma", content(4095, 3)}}
+	case "gaps": // free sectors between regular streams
+		return []WStream{{"s1", content(4096, 1)}, {"S2", content(4097, 2)}, {"s3x", content(100, 3)}, {"T4", content(13000, 4)}, {"u5", content(8192, 5)}}
+	case "mixed":
+		return []WStream{{"Alpha", content(63, 1)}, {"beta2", content(5000, 2)}, {"Gamma", content(4095, 3)}, {"delta", content(0x2000, 4)},
+			{"\x05SummaryInformation", content(300, 5)}, {"Zeta6", content(64, 6)}, {"eta", content(65, 7)}}
+	}
+	panic("unknown shape " + shape)
 }
